@@ -67,6 +67,18 @@ Example C04_qlim_nonvacuous : exists st qg c,
 Proof. exact qlim2_same_input_ok. Qed.
 Print Assumptions C04_qlim_nonvacuous.
 
+(* the PYPOWER algorithms run the same loop; their rule before the repair exempted gens with a zero limit *)
+Theorem C04_pypower_old_zero_limit_refuted :
+  viol_max_old_pypower gz [] [0; 7#4] = [] /\ viol_max gz [] [0; 7#4] = [1%nat].
+Proof. exact pypower_old_zero_limit_refuted. Qed.
+Print Assumptions C04_pypower_old_zero_limit_refuted.
+
+(* pfsoln addresses the gens of a reference bus by row; the rule before the repair used positions in the list of switched-on
+   gens, which differ as soon as an earlier row is off (PYPOWER q-limit loop) *)
+Theorem C04_pfsoln_old_row_index_refuted : gens_at_bus_old grow 2 = [1%nat] /\ gens_at_bus_rows grow 2 = [2%nat].
+Proof. exact pfsoln_old_row_index_refuted. Qed.
+Print Assumptions C04_pfsoln_old_row_index_refuted.
+
 (* the whole call: when every in-service bus is a reference bus powerflow.py bypasses the solver and with it the q-limit
    loop, so the limit statement holds under the guard G04b (some bus is PV or PQ) and is refuted without it *)
 Theorem C04_qlim_within_limits_partial : forall srcs nb solve qlim2 gens st qg c i g,
